@@ -93,6 +93,21 @@ def lookup_oracle(c, out, hist, where, elsewhere=None):
             ok = False
             out.violation("get_records-differs-from-isinstance-scan", getattr(cls, "__name__", "tuple"),
                           {"where": where, "got": len(got), "want": len(want)}, hist)
+    # a typed listing is a snapshot: records added after it was taken are not in it
+    for cls in (pm.ProvEntity, pm.ProvRecord, (pm.ProvEntity, pm.ProvAgent)):
+        want = [r for r in c.get_records() if isinstance(r, cls)]
+        listing = c.get_records(cls)
+        try:
+            c.entity(QualifiedName(Namespace("zz8", "http://zz8.example/"), "late%d" % len(want)))
+        except Exception as e:
+            out.filters["late-record-not-addable:%s" % type(e).__name__] += 1
+            break
+        got = list(listing)
+        if len(got) != len(want) or any(a is not b for a, b in zip(got, want)):
+            ok = False
+            out.violation("typed-listing-follows-later-additions", getattr(cls, "__name__", "tuple"),
+                          {"where": where, "got": len(got), "want": len(want)}, hist)
+            break
     before = [id(r) for r in c.get_records()]
     lst = c.records
     same_obj = lst is c.records
